@@ -32,7 +32,7 @@ def setup(ctx: Any) -> None:
 def gen_case(rnd, tier: str, i: Any) -> Dict[str, Any]:
     n_ranks = rnd.choice([1, 1, 1, 2])
     files = {}
-    first_step = rnd.randint(3, 500)
+    first_step = gen_sim.pick_first_step(rnd, 3)
     big = rnd.random() < 0.15
     for r in range(n_ranks):
         p = gen_sim.random_params(rnd, tier, rank=r, first_step=first_step)
